@@ -772,11 +772,12 @@ def rft_densities(ck, rft):
     if ck.thorough():
         xs = np.concatenate([xs, np.linspace(0.05, 9.0, 40)])
     # small, moderate and LARGE finite denominator degrees of freedom (long time series): Gamma((dfd+1)/2) itself overflows from dfd = 343
-    dfds = [3, 5, 10, 30, 40, 100, 343, 400, 1000, 10000, 1000000] if not ck.thorough() else \
-        [3, 4, 5, 7, 10, 20, 30, 40, 50, 100, 300, 343, 344, 400, 1000, 5000, 10000, 100000, 1000000]
-    dfns = [1, 2, 3, 5, 8] if not ck.thorough() else [1, 2, 3, 4, 5, 6, 8, 12]
+    # (non-integer dfd: effective / Satterthwaite degrees of freedom)
+    dfds = [2.5, 3, 5, 7.5, 10, 23.7, 30, 40, 100, 343, 400, 1000, 10000, 1000000] if not ck.thorough() else \
+        [2.5, 3, 4, 5, 7, 7.5, 10, 20, 23.7, 30, 40, 50, 100, 100.3, 300, 343, 344, 400, 1000, 5000, 10000, 100000, 1000000]
+    dfns = [1, 2, 3, 5, 8, 22, 23] if not ck.thorough() else [1, 2, 3, 4, 5, 6, 8, 12, 22, 23, 30]
 
-    def chk(sig, what, got, want, rep, tol=1e-9, dfd=0.):
+    def chk(sig, what, got, want, rep, tol=1e-9, dfd=0., scale=0.):
         """relative 1e-9; differences of log-Gamma values of size ~dfd lose about dfd * 1e-16, which is added for large dfd"""
         ck.count((sig, repr(rep)), bucket="rft:density")
         got, want = np.asarray(got, float), np.asarray(want, float)
@@ -786,7 +787,8 @@ def rft_densities(ck, rft):
             ck.fail(sig.split("/")[0] + "/non-finite/" + sig.split("/")[1], "%s: at x=%s got %s (not finite), expected %s" % (what, xs[i], got[i], want[i]),
                     dict(rep, x=float(xs[i]), got=str(got[i]), expected=float(want[i])))
             return
-        bad = ~(np.abs(got - want) <= (tol + extra) * (np.abs(want) + 1e-12) + 1e-14 + extra * np.max(np.abs(want)))
+        # `scale` = sum of |terms| of the expansion the code evaluates: densities change sign, rounding of the sum is 1e-12 * scale
+        bad = ~(np.abs(got - want) <= (tol + extra) * (np.abs(want) + 1e-12) + 1e-14 + extra * np.max(np.abs(want)) + 1e-12 * scale)
         if bad.any():
             i = int(np.argmax(bad))
             ck.fail(sig, "%s: at x=%s got %s, expected %s" % (what, xs[i], got[i], want[i]), dict(rep, x=float(xs[i]), got=float(got[i]), expected=float(want[i])))
@@ -815,14 +817,14 @@ def rft_densities(ck, rft):
     xthr = xt
     chk_tail("rho0/gaussian", "Gaussian().density(x, 0) vs norm.sf", rft.Gaussian().density(xt, 0), stats.norm.sf(xt), {})
     for m in dfds:
-        chk_tail("rho0/t", "TStat(dfd=%d).density(x, 0) vs t.sf" % m, rft.TStat(dfd=m).density(xt, 0), stats.t.sf(xt, m), {"dfd": m}, dfd=m)
+        chk_tail("rho0/t", "TStat(dfd=%g).density(x, 0) vs t.sf" % m, rft.TStat(dfd=m).density(xt, 0), stats.t.sf(xt, m), {"dfd": m}, dfd=m)
     for k in dfns:
         xthr = xt ** 2
         chk_tail("rho0/chi2", "ChiSquared(dfn=%d).density(x, 0) vs chi2.sf" % k, rft.ChiSquared(dfn=k).density(xthr, 0), stats.chi2.sf(xthr, k), {"dfn": k})
         for m in dfds:
             xthr = xt ** 2 / k
             chk_tail("rho0/F/%s" % ("negative-gamma-in-Q" if neg_gamma(k, m, 0) else "other"),
-                     "FStat(dfn=%d, dfd=%d).density(x, 0) vs f.sf" % (k, m), rft.FStat(dfn=k, dfd=m).density(xthr, 0),
+                     "FStat(dfn=%d, dfd=%g).density(x, 0) vs f.sf" % (k, m), rft.FStat(dfn=k, dfd=m).density(xthr, 0),
                      stats.f.sf(xthr, k, m), {"dfn": k, "dfd": m}, dfd=m)
     # Gaussian: (2 pi)^-(d+1)/2 He_{d-1}(x) exp(-x^2/2); He by the three-term recurrence (independent of hermitenorm)
     def He(n, x):
@@ -842,7 +844,7 @@ def rft_densities(ck, rft):
         forms = {1: (2 * np.pi) ** -1 * base, 2: (2 * np.pi) ** -1.5 * c2 * xs * base,
                  3: (2 * np.pi) ** -2 * ((m - 1.) / m * xs ** 2 - 1) * base}
         for d, want in forms.items():
-            chk("density/t", "TStat(dfd=%d).density(x, %d) vs Worsley closed form" % (m, d), rft.TStat(dfd=m).density(xs, d), want, {"dfd": m, "dim": d}, dfd=m)
+            chk("density/t", "TStat(dfd=%g).density(x, %d) vs Worsley closed form" % (m, d), rft.TStat(dfd=m).density(xs, d), want, {"dfd": m, "dim": d}, dfd=m)
     # chi-squared field (Worsley 1994), dims 1..3
     for k in dfns:
         c = 1.0 / (2 ** ((k - 2) / 2.) * np.exp(gammaln(k / 2.)))
@@ -851,7 +853,7 @@ def rft_densities(ck, rft):
                  3: (2 * np.pi) ** -1.5 * c * xs ** ((k - 3) / 2.) * np.exp(-xs / 2) * (xs ** 2 - (2 * k - 1) * xs + (k - 1) * (k - 2))}
         for d, want in forms.items():
             chk("density/chi2", "ChiSquared(dfn=%d).density(x, %d) vs Worsley closed form" % (k, d), rft.ChiSquared(dfn=k).density(xs, d), want,
-                {"dfn": k, "dim": d})
+                {"dfn": k, "dim": d}, scale=ref_cone(np.sqrt(xs), ref_sphere(k), np.inf, [0.0] * d + [1.0])[1])
     # F field (Worsley 1994), dims 1..2
     for k in dfns:
         for m in dfds:
@@ -864,8 +866,39 @@ def rft_densities(ck, rft):
             for d, want in forms.items():
                 # structural feature: Q(j, dfd) takes gammaln((m+2-j+2L)/2) at an argument where Gamma is negative (log|Gamma| loses the sign)
                 neg = neg_gamma(k, m, d)
-                chk("density/F/%s" % ("negative-gamma-in-Q" if neg else "other"), "FStat(dfn=%d, dfd=%d).density(x, %d) vs Worsley closed form" % (k, m, d),
-                    rft.FStat(dfn=k, dfd=m).density(xs, d), want, {"dfn": k, "dfd": m, "dim": d}, dfd=m)
+                chk("density/F/%s" % ("negative-gamma-in-Q" if neg else "other"), "FStat(dfn=%d, dfd=%g).density(x, %d) vs Worsley closed form" % (k, m, d),
+                    rft.FStat(dfn=k, dfd=m).density(xs, d), want, {"dfn": k, "dfd": m, "dim": d}, dfd=m,
+                    scale=ref_cone(np.sqrt(xs * k), ref_sphere(k), m, [0.0] * d + [1.0])[1])
+    # ---- rho_0 for numerator df / sphere dimensions up to the hundreds and non-integer dfd, thresholds at given tail probabilities
+    tails = np.array([0.9, 0.5, 0.1, 1e-3, 1e-8])
+    for k in ([22, 23, 30, 64, 120] if not ck.thorough() else [16, 22, 23, 30, 40, 64, 100, 120, 200]):
+        for m in (7.5, 23.7, 40, 1000, np.inf):
+            if np.isfinite(m):
+                thr, o, arg = stats.f.isf(tails, k, m), rft.FStat(dfn=k, dfd=m), (lambda t: np.sqrt(t * k))
+                want, nm = stats.f.sf(thr, k, m), "FStat(dfn=%d, dfd=%g)" % (k, m)
+            else:
+                thr, o, arg = stats.chi2.isf(tails, k), rft.ChiSquared(dfn=k), np.sqrt
+                want, nm = stats.chi2.sf(thr, k), "ChiSquared(dfn=%d)" % k
+            ck.count(("rho0-large", k, m), bucket="rft:density")
+            got = np.asarray(o.density(thr, 0), float)
+            _, scale = ref_cone(arg(thr), ref_sphere(k), m, [1.0])
+            cond = scale / np.abs(want)                       # conditioning of the alternating Hermite expansion the code evaluates
+            bad = ~(np.abs(got - want) <= 1e-9 * np.abs(want))
+            if bad.any():
+                i = int(np.argmax(bad))
+                err = abs(got[i] - want[i])
+                if not np.isfinite(got[i]):
+                    feat = "non-finite"
+                elif err <= 1e-12 * scale[i]:
+                    feat = "cancellation"                     # within the rounding error of the ill-conditioned alternating sum the code evaluates
+                elif k - 2 >= HERMITE_EXACT:
+                    feat = "hermitenorm-inexact"              # He_{k-2} enters; np.around(hermitenorm(n).c) is not exact from n = 27
+                else:
+                    feat = "value"
+                ck.fail("rho0-large-dfn/%s" % feat,
+                        "%s.density(%.6g, 0) = %.12g, upper tail probability %.12g (relative error %.3g; sum|terms|/value = %.3g)" % (
+                            nm, thr[i], got[i], want[i], abs(got[i] - want[i]) / want[i], cond[i]),
+                        {"dfn": k, "dfd": m, "x": float(thr[i]), "got": float(got[i]) if np.isfinite(got[i]) else str(got[i]), "expected": float(want[i])})
     # ---- large finite dfd: every density is finite and converges (first order in 1/dfd) to its dfd = inf limit
     limits = [("t", lambda v: rft.TStat(dfd=v), lambda: rft.Gaussian(), xs, range(0, 6))]
     for k in (2, 5):
@@ -914,9 +947,9 @@ def rft_repeat(ck, rft):
         return (lambda x: stats.f.sf(x * (v - k + 1.) / (v * k), k, v - k + 1)) if np.isfinite(v) else (lambda x: stats.chi2.sf(x, k))
 
     cases = [("Gaussian", lambda **kw: rft.Gaussian(**kw), lambda x: stats.norm.sf(x), {})]
-    for v in ([5, 40, 1000, inf] if not ck.thorough() else [3, 5, 12, 40, 343, 1000, 1e5, inf]):
+    for v in ([5, 7.5, 23.7, 40, 1000, inf] if not ck.thorough() else [3, 5, 7.5, 12, 23.7, 40, 100.3, 343, 1000, 1e5, inf]):
         cases.append(("TStat", (lambda v: lambda **kw: rft.TStat(dfd=v, **kw))(v), (lambda v: lambda x: stats.t.sf(x, v) if np.isfinite(v) else stats.norm.sf(x))(v), {"dfd": v}))
-        for k in ((2, 5) if not ck.thorough() else (1, 2, 3, 5, 8)):
+        for k in (((2, 5, 22) if v in (23.7, inf) else (2, 5)) if not ck.thorough() else (1, 2, 3, 5, 8, 22, 25)):
             cases.append(("FStat", (lambda k, v: lambda **kw: rft.FStat(dfn=k, dfd=v, **kw))(k, v),
                           (lambda k, v: lambda x: stats.f.sf(x, k, v) if np.isfinite(v) else stats.chi2.sf(k * x, k))(k, v), {"dfn": k, "dfd": v}))
             if not np.isfinite(v) or v - k + 1 > 0:
@@ -926,7 +959,7 @@ def rft_repeat(ck, rft):
                           (lambda k, v: lambda x: 2 * (stats.f.sf(x, k, v) if np.isfinite(v) else stats.chi2.sf(k * x, k)))(k, v), {"dfn": k, "dfd": v, "k": 1}))
             cases.append(("Roy", (lambda k, v: lambda **kw: rft.Roy(dfn=k, dfd=v, k=3, **kw))(k, v), None, {"dfn": k, "dfd": v, "k": 3}))
             cases.append(("OneSidedF", (lambda k, v: lambda **kw: rft.OneSidedF(k + 1, dfd=v, **kw))(k, v), None, {"dfn": k + 1, "dfd": v}))
-    for k in (1, 2, 3, 5):
+    for k in (1, 2, 3, 5, 22, 23):
         cases.append(("ChiSquared", (lambda k: lambda **kw: rft.ChiSquared(dfn=k, **kw))(k), (lambda k: lambda x: stats.chi2.sf(x, k))(k), {"dfn": k}))
         # a Gaussian linear form maximised over the unit sphere of R^k is |Z|: chi_k tail
         cases.append(("MultilinearForm", (lambda k: lambda **kw: rft.MultilinearForm(k, **kw))(k), (lambda k: lambda x: stats.chi.sf(x, k))(k), {"dims": [k]}))
@@ -1009,12 +1042,101 @@ def rft_repeat(ck, rft):
     ck.section("rft-repeat", objects=n_obj, calls_per_object=13)
 
 
+# ====================================================================== section: rft helper functions
+def gamma_overflow(name, n):
+    """structural feature: mu_sphere evaluates gamma(n/2), mu_ball gamma(n/2 + 1); Gamma(x) exceeds the double range for x > 171.62"""
+    return (n / 2. + (1 if name == "ball" else 0)) > 171.62
+
+
+def rft_helpers(ck, rft):
+    """binomial, mu_sphere / spherical_search, mu_ball / ball_search, volume2ball against independent exact / log-space formulas,
+    for arguments from 0 up to the hundreds; ECquasi argument validation."""
+    ns = list(range(0, 41)) + [50, 64, 100, 150, 200, 300]
+    for n in ns:
+        ks = range(0, n + 1) if n <= 40 else sorted(set([0, 1, 2, 3, n // 3, n // 2, n - 3, n - 2, n - 1, n]))
+        for k in ks:
+            ck.count(("binom", n, k), bucket="rft:helpers")
+            want = math.comb(n, k)
+            try:
+                got = float(rft.binomial(n, k))
+            except Exception as e:  # noqa
+                ck.fail("rft-helpers/binomial/raises", "binomial(%d, %d) raised %s" % (n, k, e), {"n": n, "k": k})
+                continue
+            if not abs(got - want) <= 1e-10 * want:
+                feat = "k==n" if k == n else ("n>=22" if n >= 22 else "value")
+                ck.fail("rft-helpers/binomial/%s" % feat, "binomial(%d, %d) = %r, C(%d, %d) = %d" % (n, k, got, n, k, want), {"n": n, "k": k, "got": got, "expected": want})
+    dims = list(range(1, 13)) + [22, 23, 30, 64, 120, 200, 300, 343, 344, 400]
+    for n in dims:
+        for r in (1.0, 2.5):
+            if n > 100 and r != 1.0:
+                continue
+            for name, fn, ref in (("sphere", lambda: rft.spherical_search(n, r=r).mu, [v * r ** j for j, v in enumerate(ref_sphere(n))]),
+                                  ("ball", lambda: rft.ball_search(n, r=r).mu, ref_ball(n, r))):
+                ck.count(("curv", name, n, r), bucket="rft:helpers")
+                rep = {"region": name, "n": n, "r": r}
+                try:
+                    got = np.asarray(fn(), float)
+                except Exception as e:  # noqa
+                    ck.fail("rft-helpers/%s/raises" % name, "%s_search(%d, r=%g) raised %s: %s" % (name, n, r, type(e).__name__, e), rep)
+                    continue
+                want = np.asarray(ref, float)
+                if got.shape != want.shape:
+                    ck.fail("rft-helpers/%s/shape" % name, "%s_search(%d) has %d curvatures, expected %d" % (name, n, got.size, want.size), rep)
+                elif gamma_overflow(name, n) and not (np.all(np.isfinite(got)) and np.all(np.abs(got - want) <= 1e-10 * np.abs(want))):
+                    j = int(np.argmax(~(np.abs(got - want) <= 1e-10 * np.abs(want))))
+                    ck.fail("rft-helpers/%s/gamma-overflow" % name, "mu_%s(%d, %d, r=%g) = %r, expected %r: math Gamma(%g) overflows a double" % (
+                        name, n, j, r, got[j], want[j], n / 2. + (1 if name == "ball" else 0)), dict(rep, j=j))
+                elif not np.all(np.isfinite(got)):
+                    ck.fail("rft-helpers/%s/non-finite" % name,
+                            "%s_search(%d, r=%g).mu contains %d non-finite values (first at j=%d); the curvatures are finite (e.g. L_0 = %g)" % (
+                                name, n, r, int((~np.isfinite(got)).sum()), int(np.argmin(np.isfinite(got))), want[0]), rep)
+                elif not np.all(np.abs(got - want) <= 1e-10 * np.abs(want)):
+                    j = int(np.argmax(np.abs(got - want) > 1e-10 * np.abs(want)))
+                    ck.fail("rft-helpers/%s/value" % name, "mu_%s(%d, %d, r=%g) = %r, expected %r" % (name, n, j, r, got[j], want[j]), dict(rep, j=j))
+    for d in (0, 1, 2, 3, 5, 22, 100):
+        for vol in (0.5, 1.0, 37.0):
+            ck.count(("v2b", d, vol), bucket="rft:helpers")
+            try:
+                mu = np.asarray(rft.volume2ball(vol, d=d).mu, float)
+            except Exception as e:  # noqa
+                ck.fail("rft-helpers/volume2ball/raises", "volume2ball(%g, d=%d) raised %s" % (vol, d, e), {"vol": vol, "d": d})
+                continue
+            if d == 0:
+                ok = mu.tolist() == [1.0]
+            else:
+                lw = d / 2. * math.log(math.pi) - math.lgamma(d / 2. + 1)
+                rr = math.exp((math.log(vol) - lw) / d)
+                ok = mu.shape == (d + 1,) and close(mu, ref_ball(d, rr), 1e-9)
+            if not ok:
+                ck.fail("rft-helpers/volume2ball/value", "volume2ball(%g, d=%d).mu = %s is not a ball of that volume" % (vol, d, mu.tolist()[:4]), {"vol": vol, "d": d})
+    # ECquasi argument validation (documented: exponent is a non-negative multiple of 1/2, m > 0)
+    for kw, what in (({"exponent": 0.3, "m": 10}, "exponent"), ({"exponent": 1.25, "m": 7.5}, "exponent"), ({"exponent": 2.7, "m": 4}, "exponent"),
+                     ({"exponent": 1, "m": 0}, "m"), ({"exponent": 1, "m": -3.0}, "m")):
+        ck.count(("quasi-valid", repr(kw)), bucket="rft:helpers")
+        try:
+            q = rft.ECquasi([1, 2, 3], **kw)
+        except ValueError:
+            continue
+        except Exception as e:  # noqa
+            ck.fail("ecquasi/validation/%s" % what, "ECquasi([1,2,3], %s) raised %s instead of ValueError" % (kw, type(e).__name__), {"kwargs": kw})
+            continue
+        ck.fail("ecquasi/validation/%s" % what, "ECquasi([1,2,3], %s) is accepted (exponent=%r, m=%r); the class documents a multiple of 1/2 and m > 0 "
+                "and must raise ValueError" % (kw, q.exponent, q.m), {"kwargs": kw})
+    ck.section("rft-helpers", binomial_n_max=300, sphere_dims=dims)
+
+
 # ====================================================================== section: rft reference model
 def ref_sphere(n):
     """Lipschitz-Killing curvatures L_0..L_{n-1} of the unit sphere S^{n-1} in R^n (Adler & Taylor 2007, ch. 6):
     L_j = 2 C(n-1, j) s_n / s_{n-j} when n-1-j is even, else 0, with s_n = 2 pi^(n/2) / Gamma(n/2)."""
-    s = lambda q: 2 * math.pi ** (q / 2.) / math.gamma(q / 2.)
-    return [2 * math.comb(n - 1, j) * s(n) / s(n - j) if (n - 1 - j) % 2 == 0 else 0.0 for j in range(n)]
+    ls = lambda q: math.log(2.) + q / 2. * math.log(math.pi) - math.lgamma(q / 2.)          # log surface area of S^{q-1}
+    return [2 * math.comb(n - 1, j) * math.exp(ls(n) - ls(n - j)) if (n - 1 - j) % 2 == 0 else 0.0 for j in range(n)]
+
+
+def ref_ball(n, r=1.0):
+    """L_j(B^n(r)) = C(n, j) r^j w_n / w_{n-j}, w_n = pi^(n/2) / Gamma(n/2 + 1)"""
+    lw = lambda q: q / 2. * math.log(math.pi) - math.lgamma(q / 2. + 1)
+    return [math.comb(n, j) * r ** j * math.exp(lw(n) - lw(n - j)) for j in range(n + 1)]
 
 
 def ref_conv(a, b):
@@ -1025,19 +1147,41 @@ def ref_conv(a, b):
     return out
 
 
+# np.around(scipy.special.hermitenorm(n).c), which rft.Q uses, equals the exact integer coefficients only up to about n = 26
+HERMITE_EXACT = 27
+_REFQ = {}
+
+
 def ref_Q(j, m):
+    key = (j, float(m))
+    if key not in _REFQ:
+        _REFQ[key] = _ref_Q(j, m)
+    return _REFQ[key]
+
+
+_HE = {}
+
+
+def ref_He(n):
+    """exact integer coefficients (highest first) of the probabilists' Hermite polynomial He_n (three-term recurrence)"""
+    if n not in _HE:
+        a, b = [1], [1, 0]
+        if n == 0:
+            _HE[n] = a
+        else:
+            for r in range(1, n):
+                nxt = b + [0]
+                pad = [0] * (len(nxt) - len(a)) + a
+                a, b = b, [u - r * v for u, v in zip(nxt, pad)]
+            _HE[n] = b
+    return _HE[n]
+
+
+def _ref_Q(j, m):
     """coefficients (highest first) of Q_j: He_{j-1}; for finite m the coefficient of x^(j-1-2L) is multiplied by
     Gamma((m+1)/2) / Gamma((m+2-j+2L)/2) / (m/2)^((j-1-2L)/2)  (Worsley 1994)."""
     from scipy.special import gammaln, gammasgn
-    a, b = [1], [1, 0]                                    # He_0, He_1 (highest first, exact integers)
-    if j - 1 == 0:
-        c = a
-    else:
-        for r in range(1, j - 1):
-            nxt = b + [0]
-            pad = [0] * (len(nxt) - len(a)) + a
-            a, b = b, [u - r * v for u, v in zip(nxt, pad)]
-        c = b
+    c = ref_He(j - 1)
     c = [float(v) for v in c]
     if np.isfinite(m):
         for L in range((j - 1) // 2 + 1):
@@ -1089,11 +1233,13 @@ def rft_reference(ck, rft):
     xg = np.array([0.3, 1.0, 2.2, 3.7, 5.0, 6.5, 8.5, 11.0])            # thresholds on the Gaussian / t scale
     specs = []       # (class name, params, constructor, [(sign/weight, mu, argument transform)], product)
     specs.append(("Gaussian", {}, lambda **kw: rft.Gaussian(**kw), [(1.0, [1.0], lambda x: x)], [1.0], xg))
-    dfd_list = [5, 12, 40, 343, 1000, inf] if not ck.thorough() else [3, 5, 7, 12, 40, 100, 343, 1000, 1e5, inf]
-    dfn_list = [2, 3, 5] if not ck.thorough() else [1, 2, 3, 4, 5, 7]
+    dfd_list = [2.5, 5, 7.5, 12, 23.7, 40, 343, 1000, inf] if not ck.thorough() else [2.5, 3, 5, 7, 7.5, 12, 23.7, 40, 100, 100.3, 343, 1000, 1e5, inf]
+    dfn_list = [2, 3, 5, 22, 23, 40] if not ck.thorough() else [1, 2, 3, 4, 5, 7, 12, 22, 23, 30, 40, 64]
     for v in dfd_list:
         specs.append(("TStat", {"dfd": v}, (lambda v: lambda **kw: rft.TStat(dfd=v, **kw))(v), [(1.0, [1.0], lambda x: x)], [1.0], xg))
         for k in dfn_list:
+            if k >= 22 and not ck.thorough() and v not in (7.5, 40, inf):      # quick tier: large dimensions on three dfd only
+                continue
             sq = xg ** 2
             specs.append(("FStat", {"dfn": k, "dfd": v}, (lambda k, v: lambda **kw: rft.FStat(dfn=k, dfd=v, **kw))(k, v),
                           [(1.0, ref_sphere(k), (lambda k: lambda x: np.sqrt(x * k))(k))], [1.0], sq / k))
@@ -1101,14 +1247,16 @@ def rft_reference(ck, rft):
                           [(1.0, [1.0], np.sqrt)], ref_sphere(k), sq))
             specs.append(("Roy", {"dfn": k, "dfd": v, "k": 3}, (lambda k, v: lambda **kw: rft.Roy(dfn=k, dfd=v, k=3, **kw))(k, v),
                           [(1.0, ref_sphere(k), (lambda k: lambda x: np.sqrt(x * k))(k))], ref_sphere(3), sq / k))
+            specs.append(("Roy", {"dfn": 3, "dfd": v, "k": k}, (lambda k, v: lambda **kw: rft.Roy(dfn=3, dfd=v, k=k, **kw))(k, v),
+                          [(1.0, ref_sphere(3), lambda x: np.sqrt(x * 3))], ref_sphere(k), sq / 3))
             if k >= 2:
                 # Worsley & Taylor (2005): half the difference of the F fields with dfn and dfn - 1 numerator df
                 specs.append(("OneSidedF", {"dfn": k, "dfd": v}, (lambda k, v: lambda **kw: rft.OneSidedF(k, dfd=v, **kw))(k, v),
                               [(0.5, ref_sphere(k), (lambda k: lambda x: np.sqrt(x * k))(k)),
                                (-0.5, ref_sphere(k - 1), (lambda k: lambda x: np.sqrt(x * (k - 1)))(k))], [1.0], sq / k))
-    for k in (1, 2, 3, 5):
+    for k in (1, 2, 3, 5, 22, 23, 40):
         specs.append(("ChiSquared", {"dfn": k}, (lambda k: lambda **kw: rft.ChiSquared(dfn=k, **kw))(k), [(1.0, ref_sphere(k), np.sqrt)], [1.0], xg ** 2))
-    for dims in ([2], [4], [2, 3], [2, 2, 4]):
+    for dims in ([2], [4], [2, 3], [2, 2, 4], [22], [23, 3], [2, 2, 2, 3], [3, 3, 3, 3, 3]):
         prod = [1.0]
         for dd in dims:
             prod = ref_conv(prod, ref_sphere(dd))
@@ -1118,6 +1266,9 @@ def rft_reference(ck, rft):
     for cname, params, mk, parts, product, xx in specs:
         dfd = params.get("dfd", inf)
         regions = [("density-%d" % d, [0.0] * d + [1.0]) for d in range(5)] + [("search", [1.0, 4.0, 6.0, 4.0])]
+        big = max(len(mu) for _, mu, _ in parts) + len(product) > 20
+        if big and not ck.thorough():
+            regions = [regions[0], regions[1], regions[3], regions[5]]
         o = mk()                                                    # ONE object for all orders (as a user would)
         for rname, srch in regions:
             region = ref_conv(srch, product)
@@ -1132,7 +1283,7 @@ def rft_reference(ck, rft):
             rep = {"class": cname, "params": params, "search": srch, "x": xx.tolist()}
             try:
                 got = np.asarray(o(xx, search=srch), float)
-                got_fresh = np.asarray(mk()(xx, search=srch), float)
+                got_fresh = np.asarray(mk()(xx, search=srch), float) if not big else got
             except Exception as e:  # noqa
                 ck.fail("rft-reference/raises/%s" % cname, "%s(%s)(x, search=%s) raised %s: %s" % (cname, params, srch, type(e).__name__, e), rep)
                 continue
@@ -1141,8 +1292,12 @@ def rft_reference(ck, rft):
                 bad = ~(np.abs(g - want) <= tol * scale + 1e-300)
                 if bad.any():
                     i = int(np.argmax(bad))
-                    feat = "far-tail" if abs(float(want[i])) < 1e-8 * (1 + abs(float(want[0]))) else "value"
-                    ck.fail("rft-reference/%s/%s" % (feat, cname), "%s(%s) %s(x=%s, search=%s) = %.17g; independent model of the EC formula gives %.17g "
+                    maxdeg = max(len(mu) for _, mu, _ in parts) + len(region) - 3          # highest Hermite degree He_{j+d-1} entering the sum
+                    if maxdeg >= HERMITE_EXACT:
+                        feat = "hermitenorm-inexact"
+                    else:
+                        feat = "far-tail" if abs(float(want[i])) < 1e-8 * (1 + abs(float(want[0]))) else "value"
+                    ck.fail("rft-reference/%s%s" % (feat, "" if feat == "hermitenorm-inexact" else "/" + cname), "%s(%s) %s(x=%s, search=%s) = %.17g; independent model of the EC formula gives %.17g "
                             "(sum of |terms| %.3g)" % (cname, params, tag, xx[i], srch, g[i], want[i], scale[i]),
                             dict(rep, x_bad=float(xx[i]), got=float(g[i]), expected=float(want[i])))
                     break
@@ -1172,3 +1327,4 @@ def run(ck):
     rft_densities(ck, rft)
     rft_repeat(ck, rft)
     rft_reference(ck, rft)
+    rft_helpers(ck, rft)
